@@ -98,6 +98,21 @@ CHECKS = {
         "assumptions": E1_ASSUME + ["torn writes inside one destination operation are outside the property's quantifier",
                                     "a panic under an injected I/O error counts as 'did not report success'"],
     },
+    "C18": {
+        "level": "model_checking",
+        "technique": "bounded-exhaustive enumeration of small text files for the indexer/chunker, and explicit-state breadth-first search over FileView read/seek histories on the real object against a reference cursor",
+        "rule": "(a) index_chroms on every file described by (1-4 chromosome runs x run lengths) x (uniform lines or one line x3/x10/x40 longer at every position) x final newline x {bedGraph, bed}, plus non-grouped orders: result = linear scan; (b) FileView over a 10-byte file, every window 0<=a<=b<=12: breadth-first search over read/seek operations (state = reported position, real object rebuilt by replaying the history) plus all operation sequences to a depth, each step compared with a reference cursor over bytes[a..b] (out-of-range seeks: no panic, position stays inside the window); (c) split_file_into_chunks_by_size for every chunk count 1..lines+2: a line-aligned partition; (d) records through per-chunk and per-chromosome views = serial record stream. states = positions reached per window, transitions = operations applied. non-trivial = >=2 runs / non-empty window",
+        "require": ["indexed_files", "non_grouped_files", "chunkings", "compositions", "view_windows", "view_histories"],
+        "mc_counters": {"states": "view_states", "transitions": "view_transitions", "traces": "view_histories"},
+        "assumptions": E1_ASSUME,
+    },
+    "C19": {
+        "level": "exploration",
+        "mem_gb": 2,
+        "rule": "exhaustive: generated schema for every extra-column count 0..40 (declared fields counted independently, parsed, written and read back); supplied schemas stored verbatim with their declared field count; every schema of a grammar-based generator (all field forms x declaration types, 1-3 fields, 1-3 declarations) must parse with the generated counts; every character truncation and every single-token mutation of a schema core; every string up to a length bound over the delimiter alphabet with keyword prefixes/suffixes. Each parse runs under catch_unwind inside a worker with a 2 GB address-space cap and a wall cap (hang / unbounded growth = failure). non-trivial = every block",
+        "require": ["parses", "parses_ok", "parses_err", "schema_roundtrips", "grammar_schemas", "truncations", "token_mutations", "short_strings"],
+        "assumptions": E1_ASSUME + ["hang / unbounded growth verdicts are a 30 s wall cap and a 2 GB address-space cap per block of parses (a parse normally takes microseconds)"],
+    },
 }
 
 HOOKS = {
